@@ -55,8 +55,14 @@ MANIFEST = {
              "families of models each operation leaves every object of the other family untouched (invariant by induction over the operation "
              "list, all list lengths, all numbers of variants, the numerical routines being arbitrary functions); after solve/steady the result "
              "stored for variant k is the routine applied to the invariant data and variant k's own values only, hence equal to that of a "
-             "singleton model holding the same values, from any reachable heap; from_portable(to_portable m) reproduces names, kinds, log status, "
-             "dynamic and steady equations, flags and every variant's values under the stated well-formedness. The model is tied to the code on "
+             "singleton model holding the same values, from any reachable heap (for steady under the ownership invariant 'distinct variants own distinct "
+             "dicts', itself proved to hold after every history); m[k] with k outside -N..N-1 is rejected; WHOLE-RECORD portable theorem: for every "
+             "model record satisfying the explicit well-formedness PortableWF (stds derived from the shocks and last, quantities and equations in kind "
+             "order, every shock has its anticipated counterpart, distinct names, matching counts, variants obeying the assignment rules) "
+             "fromPortable(toPortable(d, vars)) succeeds and returns the same description, flags, context keys, names, kinds, log status, descriptions, "
+             "dynamic and steady equations and EXACTLY the same levels and changes of every variant; it forgets only attributes None (-> empty set), "
+             "the tolerances/default std and context values, which the format does not carry; PortableWF is evaluated by the driver on every "
+             "generated real model (portableWFb, proved sound). The model is tied to the code on "
              "every run by exact correspondence after every operation of random histories (aliasing structure by object identity and all stored "
              "values as exact rationals) and by independent oracles on the real heap (gc object-graph walk for disjointness, mutate-one-observe-"
              "the-other, copy/pickle behavioural equivalence incl. simulation and Kalman filter, variant-vs-singleton bit equality, portable round trip)."),
